@@ -210,8 +210,15 @@ pub fn get_insertion_index(position: &Position, text: &str) -> usize {
     let mut line = 0;
     let mut character = 0;
     let pos = (position.line, position.character);
-    for (i, c) in text.char_indices() {
+    let mut chars = text.char_indices().peekable();
+    while let Some((i, c)) = chars.next() {
         if (line, character) == pos {
+            return i;
+        }
+        // A column past the end of a line means the end of that line (LSP),
+        // a preceding carriage return belongs to the line break.
+        let is_line_break = c == '\n' || (c == '\r' && matches!(chars.peek(), Some((_, '\n'))));
+        if is_line_break && line == position.line {
             return i;
         }
         if c == '\n' {
